@@ -284,6 +284,10 @@ var targets = []target{
 	{pkg: "gws", fn: "Upgrader.doUpgradeFromConn", lean: "Upgrader_keyAndAccept",
 		from: "var websocketKey =", to: "rw.WithSubProtocol",
 		doc: "the Sec-WebSocket-Key check and the Sec-WebSocket-Accept line of the response"},
+	{pkg: "gws", fn: "connector.request", lean: "connector_request_headers",
+		from: "r.Header.Set(internal.Connection.Key", to: "var ch = make",
+		oracles: map[string]string{"c.option.PermessageDeflate.genRequestHeader()": "offer", "internal.AlphabetNumeric.Uint64()": "rnd"},
+		doc:     "the fixed header fields of the upgrade request and the Sec-WebSocket-Key (16 bytes from the PRNG, base64); the configured headers were copied into r.Header before (an input), the extension offer is an input"},
 	{pkg: "gws", fn: "connector.checkHeaders", lean: "connector_checkHeaders"},
 	{pkg: "gws", fn: "connector.getSubProtocol", lean: "connector_getSubProtocol"},
 	{pkg: "internal", fn: "CheckEncoding", lean: "internal_CheckEncoding"},
@@ -436,6 +440,8 @@ type fn struct {
 	segment  bool
 	noReturn bool
 	locals   map[string]bool
+	oracleSite  map[token.Pos]string // call site -> the input that stands for its value
+	oracleCount map[string]int
 	structRet bool             // the function returns a struct (as the tuple of its fields)
 	copyAlias map[string]bool  // struct copies (`x := path`): read-only second names
 	localStruct map[string][]string // `pd := T{F: e, …}` kept as a value: variable -> its fields (Lean locals pd_F)
@@ -946,11 +952,22 @@ func (f *fn) call(c *ast.CallExpr) string {
 	for src, pname := range f.t.oracles {
 		if strings.Join(strings.Fields(src), "") == text {
 			lt := f.lt(c)
-			if _, seen := f.oracleSet[pname]; !seen {
-				f.oracleSet[pname] = lt
-				f.oracleOrd = append(f.oracleOrd, pname)
+			// every call SITE is its own input (two draws from a PRNG are two values); the same site reached again through a
+			// duplicated continuation keeps its name
+			name, ok := f.oracleSite[c.Pos()]
+			if !ok {
+				f.oracleCount[pname]++
+				name = pname
+				if n := f.oracleCount[pname]; n > 1 {
+					name = fmt.Sprintf("%s_%d", pname, n)
+				}
+				f.oracleSite[c.Pos()] = name
 			}
-			return pname
+			if _, seen := f.oracleSet[name]; !seen {
+				f.oracleSet[name] = lt
+				f.oracleOrd = append(f.oracleOrd, name)
+			}
+			return name
 		}
 	}
 	// conversion
@@ -1023,6 +1040,8 @@ func (f *fn) call(c *ast.CallExpr) string {
 	}
 	fname := text[:min(len(text), strings.Index(text+"(", "("))]
 	switch {
+	case fname == "base64.StdEncoding.EncodeToString":
+		return fmt.Sprintf("(Base64.encode %s)", f.expr(c.Args[0]))
 	case fname == "strings.Join" && strings.Join(strings.Fields(f.src(c.Args[1])), "") == `","`:
 		return fmt.Sprintf("(Hs.joinComma %s)", f.expr(c.Args[0]))
 	case fname == "errors.New":
@@ -1365,6 +1384,9 @@ func (f *fn) assigned(n ast.Node) []string {
 		case *ast.ExprStmt:
 			if c, ok := s.X.(*ast.CallExpr); ok {
 				text := strings.Join(strings.Fields(f.src(c.Fun)), "")
+				if strings.HasSuffix(text, ".Header.Set") {
+					note(c.Fun.(*ast.SelectorExpr).X)
+				}
 				switch text {
 				case "copy", "binary.BigEndian.PutUint16", "binary.BigEndian.PutUint64", "binary.LittleEndian.PutUint32", "internal.MaskXOR":
 					note(c.Args[0])
@@ -1782,6 +1804,12 @@ func (f *fn) block(list []ast.Stmt, k cont) string {
 		}
 		if text == "binaryPool.Put" {
 			return next()
+		}
+		if strings.HasSuffix(text, ".Header.Set") { // http.Header.Set(k, v)
+			h := f.lvalueName(c.Fun.(*ast.SelectorExpr).X)
+			k, v := f.expr(c.Args[0]), f.expr(c.Args[1])
+			f.flush(&sb)
+			return sb.String() + fmt.Sprintf("let %s := Hs.set %s %s %s\n", h, h, k, v) + next()
 		}
 		if sel, ok := c.Fun.(*ast.SelectorExpr); ok && sel.Sel.Name == "PushBack" {
 			if rt := f.typeOf(sel.X); rt != nil && isJobDeque(rt) {
@@ -2348,7 +2376,7 @@ func (tr *translator) translate(key string) *result {
 	if !ok {
 		fail("function %s.%s not found", t.pkg, t.fn)
 	}
-	f := &fn{tr: tr, p: p, decl: decl, t: t, pathSet: map[string]string{}, oracleSet: map[string]string{}, state: map[string]bool{}, locals: map[string]bool{}, alias: map[string]string{}, streams: map[string]bool{}, structs: map[string][]string{}, freeSig: map[string][]string{}, structTy: map[string]string{}, freeCont: map[string]bool{}, stale: map[string]bool{}, ptrAlias: map[string]string{}, copyAlias: map[string]bool{}, localStruct: map[string][]string{}}
+	f := &fn{tr: tr, p: p, decl: decl, t: t, pathSet: map[string]string{}, oracleSet: map[string]string{}, state: map[string]bool{}, locals: map[string]bool{}, alias: map[string]string{}, streams: map[string]bool{}, structs: map[string][]string{}, freeSig: map[string][]string{}, structTy: map[string]string{}, freeCont: map[string]bool{}, stale: map[string]bool{}, ptrAlias: map[string]string{}, copyAlias: map[string]bool{}, localStruct: map[string][]string{}, oracleSite: map[token.Pos]string{}, oracleCount: map[string]int{}}
 	if decl.Recv != nil && len(decl.Recv.List) == 1 && len(decl.Recv.List[0].Names) == 1 {
 		f.recv, _ = p.info.Defs[decl.Recv.List[0].Names[0]].(*types.Var)
 	}
